@@ -494,6 +494,19 @@ func (x *FnCtx) freshSlice(name string) SliceV {
 		Len: x.tb.Fresh(name+".len", is), Cap: x.tb.Fresh(name+".cap", is)}
 }
 
+// pointeeExtent: number of slots occupied by the object a pointer of type t points to (1 if unknown).
+func pointeeExtent(t types.Type) int64 {
+	pt, ok := t.Underlying().(*types.Pointer)
+	if !ok {
+		return 1
+	}
+	switch pt.Elem().Underlying().(type) {
+	case *types.Struct, *types.Array:
+		return slotSize(pt.Elem())
+	}
+	return 1
+}
+
 // alloc reserves n slots and returns the new reference.
 func (x *FnCtx) alloc(h *Heap, n *Term) *Term {
 	r := h.A
